@@ -2,7 +2,7 @@
    hypothesis, and a concrete history (build, external change of the generator's input, build again) satisfies the premises;
    the incremental session re-executes both tasks and returns what the from-scratch session returns. *)
 From Coq Require Import List NArith ZArith Bool Lia.
-From PieV Require Import Model.Dag Model.Build Proofs.StoreInv Proofs.History Proofs.ExecInv Proofs.ExecSession Proofs.Cert Proofs.Stable Proofs.Sim Proofs.NoAbort Proofs.Final.
+From PieV Require Import Model.Dag Model.Build Proofs.StoreInv Proofs.History Proofs.ExecInv Proofs.ExecSession Proofs.Cert Proofs.Stable Proofs.Sim Proofs.NoAbort Proofs.Final Proofs.Valid Proofs.Idem.
 Import ListNotations.
 Open Scope N_scope.
 
@@ -94,4 +94,20 @@ Proof.
   destruct C01_total_premises as [A B].
   pose proof (incremental_equals_scratch_total RCx OCx Px 0 genx (fun _ => True) ordx (fun _ _ v => enc v) HSx HWFx HWOx HCx HWx HOCx 50 50 hx opsx A B B) as X.
   cbv zeta in X. exact X.
+Qed.
+
+
+(* the exact checkers of the witness are reflexive, so C02's idempotence theorem applies to it as well *)
+Lemma HReflx : forall c env r v, rc_check (RCx c) env r v (enc v) = Consistent.
+Proof. intros c env r v. cbn. rewrite Z.eqb_refl. reflexivity. Qed.
+Lemma HReflOx : forall c o, oc_check (OCx c) o (oc_stamp (OCx c) o) = true.
+Proof. intros c o. cbn. apply Z.eqb_refl. Qed.
+Example C02_idempotence_instance :
+  let r1 := rax in
+  let r2 := run_session RCx OCx Px 0 50 (new_session (snd r1)) opsx in
+  fst r2 = fst r1 /\ execs (rev (trace (snd r2))) = [].
+Proof.
+  destruct C01_total_premises as [A B].
+  pose proof (second_session_executes_nothing genx (fun _ => True) ordx RCx OCx Px (fun _ _ v => enc v) 0 HSx HWFx HWOx HReflx HReflOx 50 hx opsx A B) as X.
+  cbv zeta in X. destruct X as [X1 [X2 _]]. split; assumption.
 Qed.
